@@ -37,6 +37,8 @@ def finding_key(req, obs, detail):
         return K_ENUMUINT
     if req.startswith("C13.mix\t"):
         return "\t".join(req.split("\t")[:2])
+    if req.startswith("C13.inst\t"):
+        return "\t".join(req.split("\t")[:3])
     return req.split("\tsrc:")[0]
 
 
@@ -65,6 +67,13 @@ def _subtrees(s):
 
 def shrink(req):
     f = req.split("\t")
+    if f[0] == "C13.inst" and len(f) >= 3:
+        # one use less
+        names = f[2].split(" ")
+        if len(names) > 1:
+            for i in range(len(names)):
+                yield "C13.inst\t%s\t%s" % (f[1], " ".join(names[:i] + names[i + 1:]))
+        return
     if f[0] == "C13.mix" and len(f) >= 2:
         # a source tree: one of its operand subtrees, or one operand replaced by one of its operands
         for sub in _subtrees(f[1]):
@@ -110,7 +119,7 @@ def search(ctx):
 
 SPEC = {
     "id": "C13",
-    "gens": ["EvalTable", "EvalSites", "PosTable", "RankTable", "TypingTables", "BinopTyping"],
+    "gens": ["EvalTable", "EvalSites", "PosTable", "RankTable", "TypingTables", "BinopTyping", "InstTable"],
     "lean_modules": ["RsslVerif.Thm.C13"],
     "theorems": [T + n for n in [
         "consteval_no_panic", "tables_panic_free", "consteval_agrees", "div_mod_zero_not_constant",
@@ -120,7 +129,10 @@ SPEC = {
         "position_count_rejections", "case_label_value", "const_initialiser_value", "template_argument_value",
         "template_argument_not_converted", "lod_property_value", "lod_property_complete", "lod_property_rejections",
         "enum_values_c_semantics", "enum_rejected_only_out_of_range", "enum_overflow_only_at_type_max", "enum_no_panic",
-        "binop_common_type_as_specified_partial", "binop_common_type_enum_operand_as_specified", "binop_common_type_literal_pairs"]],
+        "binop_common_type_as_specified_partial", "binop_common_type_enum_operand_as_specified", "binop_common_type_literal_pairs",
+        "instantiation_lookup_is_exact", "each_instantiation_sees_its_own_argument",
+        "each_instantiation_sees_the_value_of_its_argument_expression", "struct_instantiation_sees_its_own_arguments",
+        "to_uint64_key_identifies_negative_arguments"]],
     "harness": "c13",
     "nontrivial": nontrivial,
     "finding_key": finding_key,
